@@ -79,6 +79,16 @@ impl SeqSpace {
 }
 
 /// Shrink candidates for a string: delete one char; replace one char by 'A' / ' ' when different.
+/// A long text abbreviated for a violation message (length, head, tail).
+pub fn brief(s: &str) -> String {
+    if s.len() <= 300 {
+        return format!("{:?}", s);
+    }
+    let head: String = s.chars().take(60).collect();
+    let tail: String = s.chars().rev().take(60).collect::<Vec<_>>().into_iter().rev().collect();
+    format!("<{} bytes: {:?} ... {:?}>", s.len(), head, tail)
+}
+
 pub fn shrink_string(s: &str) -> Vec<String> {
     let chars: Vec<char> = s.chars().collect();
     let mut out = vec![];
@@ -86,6 +96,24 @@ pub fn shrink_string(s: &str) -> Vec<String> {
     if chars.len() > 8 {
         out.push(chars[..chars.len() / 2].iter().collect());
         out.push(chars[chars.len() / 2..].iter().collect());
+    }
+    // very long strings (size-threshold cases): block deletions only, not one candidate per character
+    if chars.len() > 512 {
+        let n = chars.len();
+        for blocks in [4usize, 16, 64] {
+            let b = n / blocks;
+            for i in 0..blocks {
+                let mut c: Vec<char> = chars[..i * b].to_vec();
+                c.extend_from_slice(&chars[(i + 1) * b..]);
+                out.push(c.into_iter().collect());
+            }
+        }
+        for i in [0, 1, n / 2, n - 2, n - 1] {
+            let mut c = chars.clone();
+            c.remove(i);
+            out.push(c.into_iter().collect());
+        }
+        return out;
     }
     for i in 0..chars.len() {
         let mut c = chars.clone();
